@@ -31,6 +31,8 @@ type HistSpec struct {
 	ExtraKey func(h *Harness) string
 	// CrashIsViolation: an uncaught panic in a library thread violates this property.
 	CrashIsViolation bool
+	// KeyOf maps a violation message to the fingerprint of a listed finding ("" = none).
+	KeyOf func(violation string) string
 }
 
 // tracker follows which clients are connected, for preconditions.
@@ -244,6 +246,11 @@ func (s *HistSpec) Search(c *core.Ctx) {
 		// re-run for the trace
 		rr := s.RunHistory(acts(st.Hist), true)
 		key := fmt.Sprintf("%s %s :: %s", c.Prop, s.Name, violClass(st.Violation))
+		if s.KeyOf != nil {
+			if k := s.KeyOf(st.Violation); k != "" {
+				key = k
+			}
+		}
 		stop := c.Violate(key, core.Replay{Scenario: s.Name + ": " + hs, Message: st.Violation, Input: in, Log: tailS(rr.Trace, 60), Crash: rr.Crash})
 		if stop {
 			return
